@@ -163,6 +163,22 @@ func frontCorr(c *Ctx, stream, text, cleaned string, r parsed) {
 	} else {
 		c.Dist("parser_token_lists_rejected")
 	}
+	// every error ANTLR's parser reports stands at the position of a token of the stream (the offending
+	// token, EOF included): the clause of C16 that no model covers (the error strategy is not modelled)
+	for _, e := range r.ParseErr {
+		at := false
+		for _, t := range r.Toks {
+			if t.Line-1 == e.Line && t.Col == e.Col {
+				at = true
+				break
+			}
+		}
+		c.Dist("parser_errors_checked_against_token_positions")
+		if !at {
+			c.OracleFail("antlr:error-at-token/"+stream, map[string]any{"dsl": text, "cleaned": cleaned, "error": e},
+				"a syntax error reported by the parser does not stand at the position of any token of the text", "")
+		}
+	}
 	nParseErr := len(r.ParseErr)
 	c.D.AddF("corr:grammar-parser/"+stream, L("parse", L(ptoks...)), want, map[string]any{"dsl": text, "cleaned": cleaned, "antlr_parser_errors": r.ParseErr}, func(lean string) bool {
 		// a difference in *acceptance* is a failing input of the property itself, not only a model that no longer
